@@ -9,5 +9,5 @@ Require Import ExtrOcamlBasic.
    applies to list/option/prod; no Extract Constant). *)
 Extract Inductive String.string => "ascii list" [ "[]" "(::)" ].
 Extraction "model.ml"
-  exec typecheck wt pieces_valid json_valid satisfies build_struct sch_root module_renders run_notifications
+  exec typecheck wt pieces_valid json_valid satisfies build_struct sch_root module_renders run_notifications apply_fn
   TmplSchema.burrow_schema Templates.all_templates.
